@@ -8,8 +8,7 @@ def body(c):
     exe = merror.build(c)
     if c.replay:
         for it in merror.replay(c, exe, c.replay):
-            it.props.add("C18")
-            c.issue(it)
+            c.issue(it)     # leak issues (C03 only) are not ours
         c.cov["evaluations"] = 1
         c.cov["distinct_nontrivial"] = 1
         return
